@@ -276,7 +276,12 @@ class Facts:
             base = fid[: -len(suffix)] if m else fid
             k = self.key(base) + suffix if base in self.fns else fid
         elif fn["impl_trait"]:
-            k = "<%s as %s>::%s" % (short_ty(fn["self_ty"]), short_path(fn["impl_trait"]), fn["name"])
+            tr = fn.get("impl_trait_full") or fn["impl_trait"]
+            tr = norm_path(tr)
+            if "<" in tr:
+                head, rest = tr.split("<", 1)
+                tr = head + "<" + short_ty(rest)
+            k = "<%s as %s>::%s" % (short_ty(fn["self_ty"]), tr, fn["name"])
         elif fn["self_ty"]:
             k = "%s::%s" % (short_ty(fn["self_ty"]), fn["name"])
         else:
